@@ -115,7 +115,7 @@ def run_tlc(ctx, module_path, cfg_path, workers=8, timeout=600, env=None, simula
     meta = ctx.path(f"tlc_{tag}_{len(ctx.tlc_cmds)}")
     shutil.rmtree(meta, ignore_errors=True)
     libs = os.pathsep.join([os.path.join(VERIF, "spec", "lib")] + [d for d in glob_spec_dirs() if d != mdir])
-    jopts = [f"-Xmx{heap}", "-XX:+UseParallelGC", f"-DTLA-Library={libs}"]
+    jopts = [f"-Xmx{heap}", "-Xss64m", "-XX:+UseParallelGC", f"-DTLA-Library={libs}"]
     if dfs_queue:
         jopts.append("-Dtlc2.tool.queue.IStateQueue=StateDeque")
     cmd = ["java"] + jopts + ["-cp", TLA_JAR, "tlc2.TLC", "-workers", str(workers), "-metadir", meta,
